@@ -7,6 +7,8 @@
 """provides functionality for rendering a parsetree constructing into module
 source code."""
 
+from ast import get_source_segment
+from ast import Tuple
 import json
 import re
 import time
@@ -15,6 +17,7 @@ from mako import ast
 from mako import exceptions
 from mako import filters
 from mako import parsetree
+from mako import pyparser
 from mako import util
 from mako.pygen import PythonPrinter
 
@@ -1276,19 +1279,29 @@ def mangle_mako_loop(node, printer):
     node.accept_visitor(loop_variable)
     if loop_variable.detected:
         node.nodes[-1].has_loop_context = True
-        match = _FOR_LOOP.match(node.text)
-        if match:
-            printer.writelines(
-                "loop = __M_loop._enter(%s)" % match.group(2),
-                "try:",
-                # 'with __M_loop(%s) as loop:' % match.group(2)
-            )
-            text = "for %s in loop:" % match.group(1)
-        else:
-            raise SyntaxError("Couldn't apply loop context: %s" % node.text)
+        target, iterable = _for_loop_parts(node)
+        printer.writelines(
+            "loop = __M_loop._enter(%s)" % iterable,
+            "try:",
+            # 'with __M_loop(%s) as loop:' % iterable
+        )
+        text = "for %s in loop:" % target
     else:
         text = node.text
     return text
+
+
+def _for_loop_parts(node):
+    """return the target list and the iterable of a ``for`` control line,
+    as they are written in the template."""
+
+    code = node.text.strip() + "\n    pass"
+    for_ = pyparser.parse(code, "exec", **node.exception_kwargs).body[0]
+    target = get_source_segment(code, for_.target)
+    iterable = get_source_segment(code, for_.iter)
+    if isinstance(for_.iter, Tuple) and not iterable.startswith("("):
+        iterable = "(%s)" % iterable
+    return target, iterable
 
 
 class LoopVariable:
